@@ -48,3 +48,15 @@ def distribution(cases):
         fam = tag.split(':')[0].rstrip('0123456789')
         d[fam] = d.get(fam, 0) + 1
     return d
+
+
+def prebuild(ctxs):
+    """Create every implementation Context first and query afterwards, so that state
+    leaking between contexts (class-level caches, shared bitset classes) shows up."""
+    out = []
+    for cx in ctxs:
+        try:
+            out.append(make_context(cx))
+        except Exception as e:  # noqa: BLE001
+            out.append(e)
+    return out
